@@ -119,7 +119,7 @@ PROPS = {
         "not_covered": ["two proofs share no commitment / evaluation (distribution statement)"],
     },
     "C03": {
-        "r": [("verifier", None), ("widgets", vk_unit)],
+        "r": [("verifier", None), ("widgets", vk_unit), ("serial", lambda n: "Proof" in n or "Commitment" in n)],
         "claim": "Proof::verify (V2/V3), verify_legacy (V1), Verifier::verify_with_version, the six widget "
                  "compute_linearization_commitment fns, append_linearization_commitment_terms, the transcript protocol "
                  "(append_commitment/append_scalar/challenge_scalar/circuit_domain_sep/base/base_v3) and verifier-key seeding: "
@@ -303,7 +303,8 @@ PROPS = {
     "C17": {
         "v_units": ["decoders.py", "compress.py"],
         "v_units2": ["capacity.py"],      # separate overlay (CommitKey is transparent there, external in decoders.py)
-        "r": [("kzg", lambda n: "from_raw_var_bytes" in n), ("verifier", lambda n: n == "verifier.new"), ("compress", None)],
+        "r": [("kzg", lambda n: "from_raw_var_bytes" in n), ("verifier", lambda n: n == "verifier.new"), ("compress", None),
+              ("serial", lambda n: "try_from_bytes" in n or "from_slice" in n or "from_bytes" in n)],
         "claim": "totality of the length-field / section parsing for ALL byte strings of ANY length (no bound): Verifier::try_from_bytes and "
                  "Prover::try_from_bytes never index out of bounds and never overflow (48-byte header, checked sums, required_len guard before "
                  "every slice); PackedCircuitReader::{take, unpack_array_len} and packed_size_limit likewise; "
@@ -396,7 +397,7 @@ PROPS = {
     },
     "C15": {
         "v_units": ["capacity.py", "compress.py"],
-        "r": [("compress", None)],
+        "r": [("compress", None)],   # incl. unpack_bounded, from_composer, scalar_map, row replay
         "claim": "(a) the two routes accept exactly the same capacities: Compiler::max_constraints(pp) == pow2_floor(max_degree - 6) - 6 "
                  "(saturating), compile_with_composer computes n = npot(c + 6) and fails whenever trim(n) fails, PublicParameters::trim(n) "
                  "succeeds iff n + 6 <= max_degree, and LEMMA max_constraints_exact: for all c >= 1 and all capacities, "
